@@ -39,6 +39,9 @@ pub enum Case {
     /// 2: Vec<PushGene>); p = (0, 0) means the default close probability 1/(n+1).
     /// Law: independent genes, each Close with p and otherwise a uniformly chosen instruction.
     PlushyGen { which: u8, p: R2, n: usize, l: usize },
+    /// one Umad value (new_with_empty_rate, empty rate != addition rate) used for two genomes in a row,
+    /// of lengths l1 and l2: the joint law is the product of the two single-genome laws
+    UmadTwo { a: R2, e: R2, d: R2, l1: usize, l2: usize },
 }
 
 fn product_mask_law(l: usize, p: Ratio) -> Law<Vec<bool>> {
@@ -288,9 +291,52 @@ fn long_case(which: u8, l: usize, dev: usize) -> Out {
     (st.leaves, st.choice_points, None, 2)
 }
 
+fn umad_two_case(a: R2, e: R2, d: R2, l1: usize, l2: usize) -> Out {
+    use crate::c11::TagGen;
+    use ec_core::operator::mutator::Mutator;
+    use ec_linear::genome::vector::Vector;
+    use ec_linear::mutator::umad::Umad;
+    let m = grid_for(&[a, e, d], &[]);
+    let label = format!("one Umad::new_with_empty_rate(a={}, empty={}, d={}) value mutating a genome of length {l1}, then one of length {l2}", rr(a), rr(e), rr(d));
+    let render = |out: &[Gene]| -> Vec<(bool, usize)> {
+        out.iter().map(|x| match x { Gene::Old(i) => (true, *i), Gene::New { choice, .. } => (false, *choice) }).collect()
+    };
+    let mut law: Law<(Vec<(bool, usize)>, Vec<(bool, usize)>)> = Law::new();
+    let mut panic = None;
+    let st = explore(
+        |env| {
+            let gen = TagGen { g: 1, serial: std::cell::Cell::new(0) };
+            let mut rng = ChoiceRng::new(env, Alphabet::Grid(m));
+            mcx::guarded(|| {
+                let um = Umad::new_with_empty_rate(f(a), f(e), f(d), &gen);
+                let p1: Vector<Gene> = (0..l1).map(Gene::Old).collect();
+                let p2: Vector<Gene> = (0..l2).map(Gene::Old).collect();
+                let o1 = um.mutate(p1, &mut rng).unwrap().genes;
+                let o2 = um.mutate(p2, &mut rng).unwrap().genes;
+                (o1, o2)
+            })
+        },
+        |_, w, o| match o {
+            Ok((o1, o2)) => law.add((render(&o1), render(&o2)), w),
+            Err(p) => panic = Some(p),
+        },
+        50_000_000,
+    );
+    let w1 = umad_law(l1, rr(a), rr(d), 1, UmadKind::EmptyRate(e.0, e.1));
+    let w2 = umad_law(l2, rr(a), rr(d), 1, UmadKind::EmptyRate(e.0, e.1));
+    let mut want: Law<(Vec<(bool, usize)>, Vec<(bool, usize)>)> = Law::new();
+    for (k1, p1) in &w1.mass {
+        for (k2, p2) in &w2.mass {
+            want.add((k1.clone(), k2.clone()), p1.mul(*p2));
+        }
+    }
+    compare("umad-reused", &label, &law, &want, &st, panic)
+}
+
 pub fn run_case(c: &Case) -> Out {
     match c {
         Case::Long { which, l, dev } => long_case(*which, *l, *dev),
+        Case::UmadTwo { a, e, d, l1, l2 } => umad_two_case(*a, *e, *d, *l1, *l2),
         Case::PlushyGen { which, p, n, l } => {
             let pc = if p.1 == 0 { Ratio::new(1, *n as u128 + 1) } else { rr(*p) };
             let m = if p.1 == 0 { (*n * (*n + 1)) as u32 } else { grid_for(&[*p], &[*n as u32]) };
@@ -509,6 +555,13 @@ pub fn cases(quick: bool) -> Vec<Case> {
             v.push(Case::Long { which, l, dev: if quick || which == 3 || l > 130 { 1 } else { 2 } });
         }
     }
+    for (a, e) in [((1u32, 4u32), (3u32, 4u32)), ((3, 4), (1, 4)), ((0, 1), (1, 1)), ((1, 1), (0, 1)), ((1, 2), (1, 4))] {
+        for d in [(0u32, 1u32), (1, 2)] {
+            for (l1, l2) in [(0usize, 1usize), (1, 0), (0, 0), (1, 1)] {
+                v.push(Case::UmadTwo { a, e, d, l1, l2 });
+            }
+        }
+    }
     for which in 0..3u8 {
         for n in 1..=if quick { 2usize } else { 3 } {
             for l in 0..=if quick { 2usize } else { 3 } {
@@ -560,7 +613,7 @@ pub fn run(run: &mut Run) {
     run.states = cs.len() as u64;
     run.traces_validated = run.evaluations;
     run.distinct_nontrivial = nontrivial;
-    run.rule = "lattice rates {0,1/4,1/3,1/2,3/4,1}: WithRate / WithOneOverLength flip-mask law = product law; Umad output-genome law = per-gene law (keep 1-d, insert a(1-d), uniform generator) incl. expected size l(1-d)(1+a) and the empty-parent rate; Bitstring::random / random_with_probability / BoolGenerator product laws; GeneGenerator close probability (explicit and 1/(n+1)) and uniform instruction choice, for single genes and for whole random genomes of 0..2 (3) genes built through the collection generator (Plushy and Vec<PushGene>): product law over the positions; all grid word sequences, laws compared as exact rationals. (UniformXo's exact 1/2 law on short genomes is decided in C10.) Long genomes (63..129, thorough up to 257): flips, bit generators and UniformXo under every stream with at most 1 (2) non-default words over the grid plus the extreme words: every gene must be seen with both outcomes and every pair of genes with different outcomes (alphabet with alternating bit-block words, so that implementations serving several genes from one word are driven through every pair as well). non-trivial = scenarios whose law has more than one outcome".into();
+    run.rule = "lattice rates {0,1/4,1/3,1/2,3/4,1}: WithRate / WithOneOverLength flip-mask law = product law; one Umad value reused for an empty and a non-empty genome (product law); Umad output-genome law = per-gene law (keep 1-d, insert a(1-d), uniform generator) incl. expected size l(1-d)(1+a) and the empty-parent rate; Bitstring::random / random_with_probability / BoolGenerator product laws; GeneGenerator close probability (explicit and 1/(n+1)) and uniform instruction choice, for single genes and for whole random genomes of 0..2 (3) genes built through the collection generator (Plushy and Vec<PushGene>): product law over the positions; all grid word sequences, laws compared as exact rationals. (UniformXo's exact 1/2 law on short genomes is decided in C10.) Long genomes (63..129, thorough up to 257): flips, bit generators and UniformXo under every stream with at most 1 (2) non-default words over the grid plus the extreme words: every gene must be seen with both outcomes and every pair of genes with different outcomes (alphabet with alternating bit-block words, so that implementations serving several genes from one word are driven through every pair as well). non-trivial = scenarios whose law has more than one outcome".into();
     run.bound("umad_parent_lengths", json!("0, 1, 2 (m=4 lattice); thirds on length 1"));
     run.bound("flip_lengths", json!(if run.quick() { "0..2 (1/l: 1..3)" } else { "0..3 (1/l: 1..4)" }));
     run.bound("instruction_set_sizes", json!("1..5"));
